@@ -82,7 +82,7 @@ def apply(data: bytes, root: ber.Node, nodes: list, k: int, op: str, r: random.R
     elif op == "tag-class":
         new = bytes([(ident[0] & 0x3F) | (r.choice([c for c in range(4) if c != n.cls]) << 6)]) + ident[1:] + data[n.start + len(ident) : n.end]
     elif op == "tag-number":
-        num = r.choice([0, 1, 2, 3, 4, 5, 7, 9, 10, 11, 16, 17, 19, 23, 24, 25, 30, 31, 37, 1024, n.num + 1])
+        num = r.choice([0, 1, 2, 3, 4, 5, 7, 9, 10, 11, 16, 17, 19, 23, 24, 25, 30, 31, 37, 1024, 2**35, 2**63, 2**70 + 3, n.num + 1])
         if num == n.num:
             num += 1
         new = ber.ident_octets(n.cls, n.pc, num) + data[n.start + len(ident) : n.end]
